@@ -417,7 +417,7 @@ var seqFirstPieces = []string{"//", "http://x/y", "/*", "*/", "'", `\"`, "`", `\
 var seqBetween = []string{"", "", "", "// it's a \"note\n", "x = 1 // `tick\n", "// \"\n", "//\n", "x = '//' // '\n", "y = \"`\"\n",
 	// statements that begin with a backtick, a parenthesis or a bracket: printed without semicolons, every one of them makes
 	// the printer put a semicolon back behind the statement before it (several restorations in one output)
-	"`t`\n", "(w)\n", "[w]\n", "`a\n  b  \n`\n(w)\n", "-w\n`;`\n"}
+	";`t`;\n", ";(w);\n", ";[w];\n", ";`a\n  b  \n`;\n(w);\n", ";-w;\n`;`;\n"}
 
 func runC07Sequences(t *fw.T) {
 	r := t.Rand()
@@ -448,7 +448,13 @@ func runC07Sequences(t *fw.T) {
 			q2 := []byte{'"', '\''}[r.IntN(2)]
 			second = string(q2) + gen.RandStrBody(r, q2) + string(q2)
 		}
-		prog := "w = " + first + "\n" + seqBetween[r.IntN(len(seqBetween))] + "v = " + second + ";\n[w, v, w + 1, v + 1].join(\"\\u0001\")"
+		between := seqBetween[r.IntN(len(seqBetween))]
+		if strings.HasPrefix(between, ";") {
+			between = ";\n" + between[1:] // the source writes its semicolons; the printer that omits them has to put these back
+		} else {
+			between = "\n" + between
+		}
+		prog := "w = " + first + between + "v = " + second + ";\n[w, v, w + 1, v + 1].join(\"\\u0001\")"
 		cat := "sequence/two literals"
 		if i%2 == 1 {
 			cat = "sequence-nosemi/two literals"
